@@ -234,7 +234,7 @@ def bounded_checks(tier, seed):
         d = json.loads(r.stdout.strip().splitlines()[-1])
         out.append({"check": f"hierarchies.n{n}", "tool": "exhaustive class hierarchies loaded with the real loader; CPython type() is the oracle; "
                     "run-time-checked contract of c3linear_merge on raw lists; c3linear_merge vs CPython on every acyclic hierarchy of 5 classes (<= 3 ordered bases)",
-                    "bound": f"{n} classes, <= 3 ordered bases each (cycles included), member x placed in every subset of classes; 3-class hierarchies with a builtin (unresolvable) base at every position" if members == "1" else f"{n} classes, <= 3 ordered bases each (time budget {budget}s)",
+                    "bound": f"{n} classes, <= 3 ordered bases each (cycles included), member x placed in every subset of classes; 3-class hierarchies with a builtin (unresolvable) base at every position; 4 four-class diamonds with __init__ declared in every subset of the classes (Class.parameters against the MRO-nearest __init__)" if members == "1" else f"{n} classes, <= 3 ordered bases each (time budget {budget}s)",
                     "cases": d["hierarchies"] + d["c3_inputs"], "failing": len(d["bad"]), "wall_s": round(time.time() - t0, 1), "violations": d["bad"]})
     return out
 
